@@ -20,6 +20,19 @@ Definition A_SORT := 8%N.      (* the admitted batch is exactly what Model/Sort.
                                   library's stable sort (insertion sort up to 20, driftsort above) makes of the
                                   buffer with the exchange's first-argument-only comparator *)
 
+Definition A_INV := 9%N.       (* the observed state satisfies the invariant every reachable state of the model has
+                                  (Proofs/ExchangeProofs.v Inv: book strictly sorted by id, all ids below the counter) —
+                                  the premise of the per-tick theorems; an observed state outside it is a state of the
+                                  code the theorems do not speak about *)
+
+Fixpoint sorted_lt (l : list N) : bool :=
+  match l with
+  | a :: ((b :: _) as r) => N.ltb a b && sorted_lt r
+  | _ => true
+  end.
+Definition inv_b {O T} (s : exch O T) : bool :=
+  sorted_lt (ids (book s)) && forallb (fun i => N.ltb i (next_id s)) (ids (book s)).
+
 Definition otype_eqb (a b : otype) : bool :=
   match a, b with
   | MarketSell, MarketSell | MarketBuy, MarketBuy | LimitSell, LimitSell
@@ -93,7 +106,8 @@ Definition ustep_mask (st : ustep) : N :=
   end.
 
 Definition ustep_mask_sz (sz : N) (st : ustep) : N :=
-  N.lor (ustep_mask st) (sort_mask uorder_eqb sz uist_is_sell (us_pre st) (us_op st) (us_obs st)).
+  N.lor (N.lor (ustep_mask st) (sort_mask uorder_eqb sz uist_is_sell (us_pre st) (us_op st) (us_obs st)))
+        (bit A_INV (inv_b (us_pre st) && match us_obs st with ObsPanic => true | _ => inv_b (us_post st) end)).
 
 (* ---- Jura ---- *)
 
@@ -128,4 +142,5 @@ Definition jstep_mask (qk : quirks) (st : jstep) : N :=
   end.
 
 Definition jstep_mask_sz (qk : quirks) (sz : N) (st : jstep) : N :=
-  N.lor (jstep_mask qk st) (sort_mask jorder_eqb sz jura_is_sell (js_pre st) (js_op st) (js_obs st)).
+  N.lor (N.lor (jstep_mask qk st) (sort_mask jorder_eqb sz jura_is_sell (js_pre st) (js_op st) (js_obs st)))
+        (bit A_INV (inv_b (js_pre st) && match js_obs st with ObsPanic => true | _ => inv_b (js_post st) end)).
